@@ -22,6 +22,7 @@ import NoKVModel.Queue.Closer
 import NoKVModel.Queue.AllCfg
 import NoKVModel.Queue.Readable
 import NoKVModel.Queue.PackLoop
+import NoKVModel.Queue.CompactModel
 
 namespace NoKV.Props.C37
 open NoKV NoKV.Queue
@@ -80,7 +81,7 @@ theorem C37_after_close (c : AllCfg) (hc : c.q.GoodLive) (p : Params) (s : St) (
     (∀ r ∈ s.pcRets, r = .blocked ∨ r = .hot ∨ r = .toobig ∨ r = .emptykey ∨ r = .closedErr ∨ r = .notfound) ∧
     (∀ (t : Nat) (cl : Client), s.clients[t]? = some cl → cl.postClose = true → cl.pc ≠ .wait) := by
   obtain ⟨_, iw⟩ := inv_reachable h
-  exact ⟨iw.pr hc.2, iw.pw⟩
+  exact ⟨iw.pr hc.2.1, iw.pw⟩
 
 /-- **After Close returns nothing is left unanswered and nothing is applied any more**
 (full statement; good write path).  In every reachable state in which `Close` has returned:
@@ -158,6 +159,23 @@ theorem C37_fails_asis_write_after_close (c : AllCfg)
     simp [hr] at h
     exact ⟨s, ⟨1, writeAfterClose, hr⟩, h⟩
 
+def pipelineFailure : List Act :=
+  [.call 0 (.set k v), .cstep 0, .cstep 0, .cstep 0, .cstep 0, .wpop, .wfail, .wack, .cstep 0]
+
+/-- As-is (`waitErrKeepsRef = false`): a write whose request the commit pipeline fails does not
+return the error, it panics (second release of the entry in `setEntry`). -/
+theorem C37_fails_asis_wait_error_panics (c : AllCfg)
+    (hc : c.q = { QCfg.good with waitErrKeepsRef := false }) :
+    ∃ s, Reachable c.q {} s ∧ s.hist = [.call 0 (.set k v), .ret 0 .panic] := by
+  have h : (run c.q {} (St.init 1) pipelineFailure).map (·.hist) =
+      some [.call 0 (.set k v), .ret 0 .panic] := by
+    rw [hc]; decide
+  cases hr : run c.q {} (St.init 1) pipelineFailure with
+  | none => simp [hr] at h
+  | some s =>
+    simp [hr] at h
+    exact ⟨s, ⟨1, pipelineFailure, hr⟩, h⟩
+
 /-! ### the close / worker-exit handshake at single-operation granularity
 (`Queue/HandshakeModel.lean`: every atomic load/store/channel operation of
 `enqueueCommitRequest`, `acquireItem`, `pop`, `commitQueue.close` is one step) -/
@@ -223,6 +241,25 @@ theorem C37_fails_asis_close_wait_panics (c : AllCfg) (hc : c.w.getGuard = false
   | some s =>
     simp [hr] at h
     exact ⟨s, ⟨2, wgRace, hr⟩, h⟩
+
+/-! ### a failed maintenance step leaves no reservation behind (`Queue/CompactModel.lean`) -/
+
+/-- **No reservation is left behind, so the throttle is released.**  When `doCompact` arms its
+deferred `compactState.Delete` before anything that can fail: in every reachable state of the
+reservation/throttle machine (any sequence of flushes, planned compactions, successful and
+FAILED moves) nothing is reserved unless a compaction is running; hence whenever L0 is not
+empty and no compaction is running, a healthy cycle (plan + move of any `k ≥ 1` tables) is
+enabled and strictly decreases the number of L0 tables, and the throttle is off once
+`l0 ≤ limit`: the write throttle is released after at most `l0` healthy cycles — however many
+failures came before. -/
+theorem C37_failed_compaction_releases (c : AllCfg) (hc : c.k.releaseOnFail = true) (limit : Nat)
+    (hlim : 0 < limit) (s : KSt) (h : KReachable c.k limit s) :
+    (s.moving = false → s.reserved = false) ∧
+    (s.moving = false → 0 < s.l0 → ∀ k, 1 ≤ k → k ≤ s.l0 →
+      ∃ s', krun c.k limit s [.cstart, .cok k] = some s' ∧ s'.l0 = s.l0 - k ∧ s'.l0 < s.l0 ∧
+        s'.reserved = false ∧ s'.moving = false ∧ (s'.l0 ≤ limit → s'.thr = false)) :=
+  ⟨kinv_reachable c.k hc limit s h,
+   fun hm hl k hk1 hk2 => healthy_cycle_progress c.k hc limit s hlim h hm hl k hk1 hk2⟩
 
 /-! ### the packing loop of `lsm.SetBatch` (`Queue/PackModel.lean`): the commit worker
 returns from applying a request -/
@@ -291,6 +328,15 @@ theorem C37_fails_asis_zero_memtable (c : AllCfg)
   simp [effSize, pstep, h2, h4, CmpOp.nat, CmpOp.eval]
 
 /-! ### non-vacuity -/
+
+/-- the flag matters: four flushes raise the throttle (limit 2), the move fails; with the
+release armed late the reservation stays, no L0 compaction can be planned any more and the
+throttle stays on; with it armed before the move the next cycle releases the throttle -/
+example :
+    ((krun { releaseOnFail := false } 2 {} [.flush, .flush, .flush, .flush, .cstart, .cfail]).map
+      fun s => (s.thr, s.reserved, kstep { releaseOnFail := false } 2 s .cstart)) = some (true, true, none) ∧
+    ((krun KCfg.good 2 {} [.flush, .flush, .flush, .flush, .cstart, .cfail, .cstart, .cok 1, .cstart, .cok 1]).map
+      fun s => (s.thr, s.reserved, s.l0)) = some (false, false, 2) := by decide
 
 /-- iterate `pstep` (examples only; the theorems do not use fuel) -/
 def piter (c : PCfg) (m : Nat) (ests : List Nat) (act : Nat → Nat) : Nat → PSt → List PSt
